@@ -95,12 +95,13 @@ UNIT = ("a", "tuple", None, ())
 
 
 class Summary:
-    __slots__ = ("outs", "head_max", "first", "facts", "reads", "runs")
+    __slots__ = ("outs", "head_max", "first", "facts", "reads", "runs", "stray_err")
 
     def __init__(self):
         self.outs = {}        # (progressed, ret, S_out|None) -> (la_out, ntok, nodes)   (max-joined)
         self.head_max = 0     # look-aheads before the first consumption (relative to entry)
         self.first = frozenset()   # kinds that some path consumes as its first consumption
+        self.stray_err = frozenset()   # kinds of the current token when error() runs right after a stray `}`
         self.facts = None
         self.reads = set()
         self.runs = 0
@@ -108,7 +109,7 @@ class Summary:
 
 class CtxFacts:
     """what one context analysis observed (replaced when the context is re-analysed)"""
-    __slots__ = ("panics", "loops", "noprog", "edges", "la_abs", "consume", "finish", "leaks", "unknown")
+    __slots__ = ("panics", "loops", "noprog", "edges", "la_abs", "consume", "finish", "leaks", "unknown", "stray_errs")
 
     def __init__(self):
         self.panics = {}
@@ -120,6 +121,7 @@ class CtxFacts:
         self.finish = {}
         self.leaks = {}
         self.unknown = {}
+        self.stray_errs = {}
 
 
 class PEngine:
@@ -228,8 +230,10 @@ class PEngine:
         finally:
             self.stack.pop()
         self.analyses += 1
-        changed = (new.outs != s.outs) or (new.head_max != s.head_max) or (new.first != s.first)
+        changed = (new.outs != s.outs) or (new.head_max != s.head_max) or (new.first != s.first) or \
+            (new.stray_err != s.stray_err)
         s.outs, s.head_max, s.first, s.facts, s.reads = new.outs, new.head_max, new.first, new.facts, new.reads
+        s.stray_err = new.stray_err
         s.runs += 1
         if changed:
             for c in self.callers.get(ctx, ()):
@@ -539,6 +543,9 @@ class PEngine:
         if leaf == "eof":
             return [ret(mktable({kk: int(kk == "EOF") for kk in S}))]
         if leaf == "error":
+            if stray:
+                summ.stray_err = summ.stray_err | S
+                self.note_stray_err(facts, fn, bb, t, S, None)
             return [ret(UNIT)]
         if leaf == "bump":
             if "EOF" in S:
@@ -633,6 +640,11 @@ class PEngine:
                 summ.head_max = hm
         short = name[len(PARSER):] if name.startswith(PARSER) else None
         karg = args[1][2] if len(args) > 1 and isinstance(args[1], tuple) and args[1][0] == "e" else None
+        if s.stray_err and short is not None:
+            # a Parser method (expect, bump_with_error, ..) reported an error while the last consumed token was a
+            # stray `}`: attributed to the grammar function that asked for it
+            summ.stray_err = summ.stray_err | s.stray_err
+            self.note_stray_err(facts, fn, bb, t, s.stray_err, karg)
         if s.first:
             if short in CONSUMERS:
                 self.note_consume(facts, fn, bb, t, s.first, karg, brace_open, stray)
@@ -663,6 +675,15 @@ class PEngine:
                 out.append(mk(tgt, S=S_out, env=e2, la=la + cla, marks=m2,
                               nodes=1 if (nodes or cnodes) else 0, brace_open=bo, stray=0 if is_root else stray))
         return out
+
+    def note_stray_err(self, facts, fn, bb, t, kinds, karg):
+        if fn.path.startswith(PARSER):
+            return
+        name = (callee(t) or "").rsplit("::", 1)[-1]
+        key = (fn.path, name, karg, self.site_ordinal(fn, bb))
+        d = facts.stray_errs.setdefault(key, {"fn": fn.path, "line": t["ln"], "callee": name, "karg": karg,
+                                              "kinds": set(), "ctx": self.chain()})
+        d["kinds"] |= set(kinds)
 
     def note_consume(self, facts, fn, bb, t, kinds, karg, brace_open, stray=0):
         if fn.path.startswith(PARSER):
@@ -716,6 +737,7 @@ class PEngine:
         self.in_brace = inb
         self.panic_sites, self.loop_viol, self.leak_sites = {}, {}, {}
         self.finish_sites, self.consume_sites, self.unknown_calls = {}, {}, {}
+        self.stray_err_sites = {}
         self.la_abs = (0, None)
         self.noprog_edges = {}
         for c in sorted(reach, key=repr):
@@ -750,6 +772,9 @@ class PEngine:
                     d["stolen"].add("R_BRACE")
                     if d["ctx"] is None:
                         d["ctx"] = v["ctx"]
+            for k, v in f.stray_errs.items():
+                d = self.stray_err_sites.setdefault(k, dict(v, kinds=set()))
+                d["kinds"] |= v["kinds"]
             self.unknown_calls.update(f.unknown)
             if f.la_abs[0] > self.la_abs[0]:
                 self.la_abs = f.la_abs
